@@ -74,6 +74,16 @@ func genCoalPlan(r *rand.Rand, faults bool) *ProxyPlan {
 		if state == 2 && r.IntN(3) == 0 {
 			res.EvictOnCond = true // the stale entry disappears while the shared revalidation is at the origin
 		}
+		if p.Transport == "connect" && r.IntN(3) == 0 {
+			// one of the clients asks in a way the proxy cannot pass on (inside a tunnel the request
+			// parser accepts a header name with a blank, the upstream transport refuses to send it):
+			// that is its own problem, whoever else asks for the same resource at that moment
+			cj := len(p.Clients) - 1 - r.IntN(n)
+			if cj != ci {
+				p.Clients[cj][0].Hdr = append(p.Clients[cj][0].Hdr, [2]string{"X Foo", "bar"})
+				p.Clients[cj][0].Unsendable = true
+			}
+		}
 	}
 	p.Res = []PRes{res}
 	return p
